@@ -217,10 +217,10 @@ func c11Exec(depth int) func(c *mon.Case) {
 // ---- H2: the same invariant observed inside the scanner during real tokenizer work
 
 var c11hook struct {
-	once                                                               sync.Once
+	once                                                                          sync.Once
 	reads, readsAtEOF, unreads, unreadAtStart, unreadFromEOF, unreadOfEol, resets counter
-	tables                                                             sync.Map
-	tablesN                                                            counter
+	tables                                                                        sync.Map
+	tablesN                                                                       counter
 }
 
 type scannerInvariant struct{ msg string }
